@@ -12,8 +12,8 @@ import (
 // keyword pools used when a letter token is replaced, per ecosystem.
 var wordPool = map[string][]string{
 	"alpine":     {"alpha", "beta", "pre", "rc", "cvs", "svn", "git", "hg", "p", "r", "a", "b", "foo"},
-	"alpm":       {"a", "b", "alpha", "beta", "rc", "pre", "p", "git", "r", "and", "AND", "or"}, // range keywords are ordinary identifiers inside a version
-	"apache":     {"alpha", "beta", "M", "milestone", "RC", "rc", "SNAPSHOT", "dev", "foo"},
+	"alpm":       {"a", "b", "alpha", "beta", "rc", "pre", "p", "git", "r", "and", "AND", "or"},                                            // range keywords are ordinary identifiers inside a version
+	"apache":     {"alpha", "beta", "M", "milestone", "RC", "rc", "SNAPSHOT", "dev", "foo", "final", "GA", "release", "Final", "ga", "sp"}, // incl. words that are qualifiers elsewhere (Maven)
 	"cargo":      {"alpha", "beta", "rc", "a", "b", "RC", "x"},
 	"composer":   {"alpha", "beta", "RC", "a", "b", "rc", "dev", "patch", "pl"},
 	"conan":      {"a", "b", "alpha", "beta", "rc", "x"},
@@ -22,7 +22,7 @@ var wordPool = map[string][]string{
 	"gem":        {"a", "b", "rc", "pre", "alpha", "beta", "dev"},
 	"gentoo":     {"alpha", "beta", "pre", "rc", "p", "a", "b", "r"},
 	"github":     {"dev", "alpha", "beta", "rc", "snapshot", "foo", "v"},
-	"golang":     {"alpha", "beta", "rc", "a", "b", "RC", "v"},
+	"golang":     {"alpha", "beta", "rc", "a", "b", "RC", "v", "incompatible"},
 	"hex":        {"alpha", "beta", "rc", "a", "b", "RC", "and", "or", "AND"},
 	"mattermost": {"rc", "esr", "v"},
 	"maven":      {"alpha", "beta", "milestone", "rc", "cr", "snapshot", "ga", "final", "release", "sp", "foo", "a", "b", "m"},
@@ -40,7 +40,7 @@ var BigOK = map[string]bool{"alpm": true, "conan": true, "debian": true, "gem": 
 var tailPool = map[string][]string{
 	"alpine":     {".0", ".1", "a", "_alpha", "_alpha1", "_beta2", "_pre", "_rc1", "_p", "_p1", "_git1", "_cvs", "-r0", "-r1", "-r2", "~abc", "_foo"},
 	"alpm":       {".0", ".1", "a", "rc", "rc1", ".a", "_1", "+1", "-1", "-2", "beta", "pre1", ".and", "and", ".AND.2", "+or"},
-	"apache":     {"-alpha", "-beta1", "-M1", "-RC1", "-rc2", "-SNAPSHOT", "-dev", "-foo"},
+	"apache":     {"-alpha", "-beta1", "-M1", "-RC1", "-rc2", "-SNAPSHOT", "-dev", "-foo", "-final", "-GA", "-release", "-foo1"},
 	"cargo":      {"-alpha", "-alpha.1", "-rc.1", "-0", "-1", "+build", "-a.b", "-rc.1.x"},
 	"composer":   {".0", ".1", "-alpha1", "-beta2", "-RC1", "-rc1", "a1", "b2", "RC3", "-dev", "-patch1", "pl1", "+build", "-alpha", "-patch"},
 	"conan":      {".0", ".1", ".a", "-alpha", "-rc.1", "-0", "+build", "-a.b"},
@@ -49,10 +49,10 @@ var tailPool = map[string][]string{
 	"gem":        {".0", ".1", ".rc1", ".pre", ".a", "-rc1", "-alpha", ".rc", ".beta", "-1", "+build"},
 	"gentoo":     {".0", ".1", "a", "_alpha", "_beta1", "_pre2", "_rc1", "_p", "_p1", "-r0", "-r1", "-r2"},
 	"github":     {"-alpha", "-beta.1", "-rc.2", ".rc1", "-SNAPSHOT", "-dev", "-foo1"},
-	"golang":     {"-alpha", "-alpha.1", "-rc.1", "-0", "-rc.10", "-rc.2", "+build", "-0.20230101000000-abcdefabcdef"},
+	"golang":     {"-alpha", "-alpha.1", "-rc.1", "-0", "-rc.10", "-rc.2", "+build", "-0.20230101000000-abcdefabcdef", "+incompatible", "-00010101000000-000000000000"},
 	"hex":        {"-alpha", "-alpha.1", "-rc.1", "-0", "+build", "-rc.10", "-and", "-and.1", "-or", "+and"},
 	"mattermost": {"-rc1", "-rc2", "-rc", "-esr"},
-	"maven":      {".0", ".1", "-alpha-1", "-a1", "-beta-2", "-M1", "-milestone-1", "-rc1", "-RC1", "-cr1", "-SNAPSHOT", "-sp", "-sp1", "-1", "-foo", ".Final", "-ga", ".RELEASE", "-0"},
+	"maven":      {".0", ".1", "-alpha-1", "-a1", "-beta-2", "-M1", "-milestone-1", "-rc1", "-RC1", "-cr1", "-SNAPSHOT", "-sp", "-sp1", "-1", "-foo", ".Final", "-ga", ".RELEASE", "-0", "%2Bsp1", "-%41", "%20x"},
 	"npm":        {"-alpha", "-alpha.1", "-rc.1", "-0", "+build", "-rc.10", "-x"},
 	"nuget":      {".0", ".1", "-alpha", "-alpha.1", "-rc.1", "-0", "+build"},
 	"pypi":       {".0", ".1", "a1", "b2", "rc1", "c1", "alpha1", ".dev1", "dev0", ".post1", "post0", ".rev1", ".r1", "+local", "+1", "+abc.1"},
@@ -67,7 +67,7 @@ func accepted(e eco.Eco, s string) bool {
 
 // mutateOnce applies one structural edit to v.
 func mutateOnce(t *rapid.T, e eco.Eco, v, l string) string {
-	if len(v) < 24 && Chance(t, l+"lengthen", 1, 40) {
+	if len(v) < 24 && rapid.IntRange(0, 59).Draw(t, l+"lengthen") == 37 { // (a middle value: rapid favours the ends of a range)
 		// a long tail (up to about 300 characters): later edits then differ behind a long common prefix
 		return lengthenUpTo(t, e, v, l+"len", 9)
 	}
@@ -228,6 +228,9 @@ func Pool(t *rapid.T, e eco.Eco, n int, l string) []string {
 // those the ecosystem accepts AND for which the library's own Compare returns
 // 0 in both directions are kept (so no equality oracle is assumed).
 func EqualVariants(e eco.Eco, v string) []string {
+	if len(v) > 1000 {
+		return nil // one proposal per token: quadratic on very long versions, which have nothing new to offer here
+	}
 	base, err := e.NewVersion(v)
 	if err != nil {
 		return nil
@@ -329,7 +332,12 @@ func Lengthen(t *rapid.T, e eco.Eco, s, l string) string {
 
 // lengthenUpTo is Lengthen restricted to the first n length targets.
 func lengthenUpTo(t *rapid.T, e eco.Eco, s, l string, n int) string {
-	target := lengthTargets[rapid.IntRange(0, n-1).Draw(t, l+"T")] - rapid.IntRange(0, 3).Draw(t, l+"d")
+	return LengthenTo(t, e, s, l, lengthTargets[rapid.IntRange(0, n-1).Draw(t, l+"T")]-rapid.IntRange(0, 3).Draw(t, l+"d"))
+}
+
+// LengthenTo extends an accepted version by an accepted tail to exactly target characters (s is returned unchanged
+// when it is already that long or no extension is accepted).
+func LengthenTo(t *rapid.T, e eco.Eco, s, l string, target int) string {
 	if len(s)+2 >= target {
 		return s
 	}
